@@ -15,6 +15,7 @@ open K2
 def curTask : Op → Option TaskId
   | .enter t _ => some t
   | .exit t _ _ => some t
+  | .exitMid t _ _ _ => some t
   | .spawn _ t' => some t'
   | _ => none
 
@@ -38,6 +39,14 @@ theorem C12_exit (w : World) (t : TaskId) (c : CtxId) (be : BlockEnd) (x : Ctx)
   rw [he, World.curOf_congr hu.cur]
   exact World.curOf_setCur_same _ _ _
 
+/-- … also when the scope is cancelled while the teardown is running. -/
+theorem C12_exit_mid (w : World) (t : TaskId) (c : CtxId) (be : BlockEnd) (k : Nat) (x : Ctx)
+    (hx : w.ctx? c = some x) (hs : x.state = .opened) :
+    (step w (.exitMid t c be k)).1.curOf t = x.token.getD none := by
+  obtain ⟨w2, hu, he⟩ := step_exitMid_eq w t c be k x hx hs
+  rw [he, World.curOf_congr hu.cur]
+  exact World.curOf_setCur_same _ _ _
+
 /-- `current_context()` reports the variable (NoCurrentContext if there is none). -/
 theorem C12_current (w : World) (t : TaskId) :
     (step w (.current t)).2 = [match w.curOf t with | some c => .cur (some c) | none => .noCurrent] ∧
@@ -49,8 +58,11 @@ theorem C12_current (w : World) (t : TaskId) :
 other than the one it acts on unchanged. -/
 theorem C12_noninterference (w : World) (op : Op) (t : TaskId) (h : curTask op ≠ some t) :
     (step w op).1.curOf t = w.curOf t := by
-  rcases step_cur w op with h' | ⟨t', c, rfl, h'⟩ | ⟨t', c, be, v, rfl, h'⟩ | ⟨t', t'', rfl, h'⟩
+  rcases step_cur w op with h' | ⟨t', c, rfl, h'⟩ | ⟨t', c, be, v, rfl, h'⟩ |
+      ⟨t', c, be, k, v, rfl, h'⟩ | ⟨t', t'', rfl, h'⟩
   · exact World.curOf_congr h' t
+  · have hne : t' ≠ t := fun e => h (by simp [curTask, e])
+    simp only [World.curOf, h', alookup_ainsert_other _ _ _ _ hne]
   · have hne : t' ≠ t := fun e => h (by simp [curTask, e])
     simp only [World.curOf, h', alookup_ainsert_other _ _ _ _ hne]
   · have hne : t' ≠ t := fun e => h (by simp [curTask, e])
@@ -67,16 +79,24 @@ theorem C12_token_stable (w : World) (op : Op) (c : CtxId) (x : Ctx) (hx : w.ctx
     obtain ⟨ch, hch⟩ := step_exit_ctx w t c be x hx hs
     rw [hch]
     simp only [Option.map_some, (exitedCtx_token c (w.curOf t) be x).1]
+  by_cases hex' : ∃ t be k, op = .exitMid t c be k ∧ x.state = .opened
+  · obtain ⟨t, be, k, rfl, hs⟩ := hex'
+    obtain ⟨ch, hch⟩ := step_exitMid_ctx w t c be k x hx hs
+    rw [hch]
+    simp only [Option.map_some, (exitedMidCtx_token c (w.curOf t) be k x).1]
   · obtain ⟨y, hy, _, _, htok⟩ := step_ctx_other w op c x hx
       (fun t e => absurd e (hop t)) (fun t be e hs => hex ⟨t, be, e, hs⟩)
+      (fun t be k e hs => hex' ⟨t, be, k, e, hs⟩)
     rw [hy, Option.map_some, htok]
 
 /-- A context stays open until it is left (or until one of the operations below is an exit of it). -/
 theorem C12_open_stable (w : World) (op : Op) (c : CtxId) (x : Ctx) (hx : w.ctx? c = some x)
-    (hs : x.state = .opened) (hop : ∀ t be, op ≠ .exit t c be) :
+    (hs : x.state = .opened) (hop : ∀ t be, op ≠ .exit t c be)
+    (hop' : ∀ t be k, op ≠ .exitMid t c be k) :
     ((step w op).1.ctx? c).map Ctx.state = some .opened := by
   obtain ⟨y, hy, _, hst, _⟩ := step_ctx_other w op c x hx
     (fun t _ => by rw [hs]; simp) (fun t be e => absurd e (hop t be))
+    (fun t be k e => absurd e (hop' t be k))
   rw [hy, Option.map_some, hst, hs]
 
 /-- Restoration over any history: enter `c`, let *other* tasks do anything at all (entering and
@@ -85,30 +105,32 @@ the task's current context is what it was before entry. -/
 theorem C12_restore (w : World) (t : TaskId) (c : CtxId) (x : Ctx) (ops : List Op) (be : BlockEnd)
     (hx : w.ctx? c = some x) (hs : x.state = .inactive)
     (hops : ∀ op ∈ ops, curTask op ≠ some t ∧ (∀ t' be', op ≠ .exit t' c be') ∧
+                         (∀ t' be' k, op ≠ .exitMid t' c be' k) ∧
                          (∀ t', op ≠ .enter t' c) ∧ (∀ t' p, op ≠ .new t' c p)) :
     let w1 := (step w (.enter t c)).1
     let w2 := (run w1 ops).1
     (step w2 (.exit t c be)).1.curOf t = w.curOf t := by
   intro w1 w2
-  have key : ∀ (ops : List Op) (w' : World),
-      (∀ op ∈ ops, curTask op ≠ some t ∧ (∀ t' be', op ≠ .exit t' c be') ∧
-                         (∀ t', op ≠ .enter t' c) ∧ (∀ t' p, op ≠ .new t' c p)) →
-      (∃ y, w'.ctx? c = some y ∧ y.state = .opened ∧ y.token = some (w.curOf t)) →
-      ∃ y, (run w' ops).1.ctx? c = some y ∧ y.state = .opened ∧ y.token = some (w.curOf t) := by
-    intro ops
-    induction ops with
-    | nil => intro w' _ h; exact h
-    | cons op ops ih =>
-      intro w' hops' ⟨y, hy, hst, htok⟩
-      have hop := hops' op List.mem_cons_self
-      simp only [run]
-      apply ih _ (fun o ho => hops' o (List.mem_cons_of_mem _ ho))
-      obtain ⟨y', hy', _, hst', htok'⟩ := step_ctx_other w' op c y hy
-        (fun t' _ => by rw [hst]; simp) (fun t' be' e => absurd e (hop.2.1 t' be'))
-      exact ⟨y', hy', hst'.trans hst, htok'.trans htok⟩
   obtain ⟨ch, hch⟩ := step_enter_ctx w t c x hx hs
-  obtain ⟨y, hy, hst, htok⟩ := key ops w1 hops ⟨_, hch, rfl, rfl⟩
+  obtain ⟨y, hy, hst, htok⟩ := run_open_stable c (some (w.curOf t)) ops w1
+    (fun op ho => ⟨(hops op ho).2.1, (hops op ho).2.2.1⟩) ⟨_, hch, rfl, rfl⟩
   rw [C12_exit w2 t c be y hy hst, htok]
+  rfl
+
+/-- … also when the scope is cancelled while the teardown of `c` is running. -/
+theorem C12_restore_mid (w : World) (t : TaskId) (c : CtxId) (x : Ctx) (ops : List Op) (be : BlockEnd)
+    (k : Nat) (hx : w.ctx? c = some x) (hs : x.state = .inactive)
+    (hops : ∀ op ∈ ops, curTask op ≠ some t ∧ (∀ t' be', op ≠ .exit t' c be') ∧
+                         (∀ t' be' k, op ≠ .exitMid t' c be' k) ∧
+                         (∀ t', op ≠ .enter t' c) ∧ (∀ t' p, op ≠ .new t' c p)) :
+    let w1 := (step w (.enter t c)).1
+    let w2 := (run w1 ops).1
+    (step w2 (.exitMid t c be k)).1.curOf t = w.curOf t := by
+  intro w1 w2
+  obtain ⟨ch, hch⟩ := step_enter_ctx w t c x hx hs
+  obtain ⟨y, hy, hst, htok⟩ := run_open_stable c (some (w.curOf t)) ops w1
+    (fun op ho => ⟨(hops op ho).2.1, (hops op ho).2.2.1⟩) ⟨_, hch, rfl, rfl⟩
+  rw [C12_exit_mid w2 t c be k y hy hst, htok]
   rfl
 
 /-- Nested blocks of one task restore level by level (two levels spelled out). -/
@@ -127,21 +149,62 @@ theorem C12_nested (w : World) (t : TaskId) (c d : CtxId) (x y : Ctx) (be be' : 
   have hcur1 : w1.curOf t = some c := (C12_enter w t c x hx hs).1
   obtain ⟨y1, hd1, _, hds1, _⟩ := step_ctx_other w (.enter t c) d y hy
     (fun t' e => by cases e; exact absurd rfl hne) (fun t' be e => by cases e)
+    (fun t' be k e => by cases e)
   have hds1' : y1.state = .inactive := hds1.trans hs'
   -- after entering d
   obtain ⟨ch2, hd2⟩ := step_enter_ctx w1 t d y1 hd1 hds1'
   have hcur2 : w2.curOf t = some d := (C12_enter w1 t d y1 hd1 hds1').1
   obtain ⟨x2, hc2, _, hcs2, hct2⟩ := step_ctx_other w1 (.enter t d) c _ hc1
     (fun t' e => by cases e; exact absurd rfl hne) (fun t' be e => by cases e)
+    (fun t' be k e => by cases e)
   -- after leaving d
   have hcur3 : w3.curOf t = some c := by
     rw [C12_exit w2 t d be _ hd2 rfl]
     simp [enteredCtx, hcur1]
   obtain ⟨x3, hc3, _, hcs3, hct3⟩ := step_ctx_other w2 (.exit t d be) c x2 hc2
     (fun t' e => by cases e) (fun t' be e => by cases e; exact absurd rfl hne)
+    (fun t' be k e => by cases e)
   -- after leaving c
   have hcur4 : w4.curOf t = w.curOf t := by
     rw [C12_exit w3 t c be' x3 hc3 (hcs3.trans hcs2), hct3, hct2]
+    rfl
+  exact ⟨hcur2, hcur3, hcur4⟩
+
+/-- … also when each of the two teardowns is interrupted by a cancellation. -/
+theorem C12_nested_mid (w : World) (t : TaskId) (c d : CtxId) (x y : Ctx) (be be' : BlockEnd)
+    (k k' : Nat)
+    (hx : w.ctx? c = some x) (hy : w.ctx? d = some y) (hne : c ≠ d)
+    (hs : x.state = .inactive) (hs' : y.state = .inactive) :
+    let w1 := (step w (.enter t c)).1
+    let w2 := (step w1 (.enter t d)).1
+    let w3 := (step w2 (.exitMid t d be k)).1
+    let w4 := (step w3 (.exitMid t c be' k')).1
+    w2.curOf t = some d ∧ w3.curOf t = some c ∧ w4.curOf t = w.curOf t := by
+  intro w1 w2 w3 w4
+  have hdc : d ≠ c := fun e => hne e.symm
+  -- after entering c
+  obtain ⟨ch1, hc1⟩ := step_enter_ctx w t c x hx hs
+  have hcur1 : w1.curOf t = some c := (C12_enter w t c x hx hs).1
+  obtain ⟨y1, hd1, _, hds1, _⟩ := step_ctx_other w (.enter t c) d y hy
+    (fun t' e => by cases e; exact absurd rfl hne) (fun t' be e => by cases e)
+    (fun t' be k e => by cases e)
+  have hds1' : y1.state = .inactive := hds1.trans hs'
+  -- after entering d
+  obtain ⟨ch2, hd2⟩ := step_enter_ctx w1 t d y1 hd1 hds1'
+  have hcur2 : w2.curOf t = some d := (C12_enter w1 t d y1 hd1 hds1').1
+  obtain ⟨x2, hc2, _, hcs2, hct2⟩ := step_ctx_other w1 (.enter t d) c _ hc1
+    (fun t' e => by cases e; exact absurd rfl hne) (fun t' be e => by cases e)
+    (fun t' be k e => by cases e)
+  -- after leaving d
+  have hcur3 : w3.curOf t = some c := by
+    rw [C12_exit_mid w2 t d be k _ hd2 rfl]
+    simp [enteredCtx, hcur1]
+  obtain ⟨x3, hc3, _, hcs3, hct3⟩ := step_ctx_other w2 (.exitMid t d be k) c x2 hc2
+    (fun t' e => by cases e) (fun t' be e => by cases e)
+    (fun t' be k e => by cases e; exact absurd rfl hne)
+  -- after leaving c
+  have hcur4 : w4.curOf t = w.curOf t := by
+    rw [C12_exit_mid w3 t c be' k' x3 hc3 (hcs3.trans hcs2), hct3, hct2]
     rfl
   exact ⟨hcur2, hcur3, hcur4⟩
 
@@ -163,6 +226,11 @@ theorem C12_current_in_teardown_disciplined (w : World) (t : TaskId) (c : CtxId)
     (hs : x.state = .opened) (hcur : w.curOf t = some c) (be : BlockEnd) :
     (step w (.exit t c be)).2 = (runTeardown c (some c) be (effStack be x.tds) { x with state := .closing, tds := [] }).2.1 ++ [.closed, exitOutcome be x.parent.isNone x.children (runTeardown c (some c) be (effStack be x.tds) { x with state := .closing, tds := [] }).2.2] := by
   rw [step_exit w t c be x hx hs, hcur]
+
+theorem C12_current_in_teardown_disciplined_mid (w : World) (t : TaskId) (c : CtxId) (x : Ctx) (hx : w.ctx? c = some x)
+    (hs : x.state = .opened) (hcur : w.curOf t = some c) (be : BlockEnd) (k : Nat) :
+    (step w (.exitMid t c be k)).2 = (runTeardown c (some c) be (midEff be k x.tds) { x with state := .closing, tds := [] }).2.1 ++ [.closed, exitOutcome be x.parent.isNone x.children (runTeardown c (some c) be (midEff be k x.tds) { x with state := .closing, tds := [] }).2.2] := by
+  rw [step_exitMid w t c be k x hx hs, hcur]
 
 /-- Non-vacuity: two tasks alternating enter/exit on their own stacks. -/
 example :
